@@ -6,7 +6,7 @@ set -u
 patch="$1"; tier="$2"; shift 2
 cd /repo || exit 2
 if ! git diff --quiet; then echo "/repo has uncommitted changes"; exit 2; fi
-git apply "$patch" || { echo "patch does not apply"; exit 2; }
+git apply --3way "$patch" 2>/dev/null || { echo "patch does not apply"; git reset -q --hard HEAD; exit 2; }
 /verif/tools/repo_tests.sh
 for id in "$@"; do
   out=$(cd /verif && ./check "$id" --tier "$tier" 2>&1)
@@ -14,5 +14,5 @@ for id in "$@"; do
   echo "$id exit=$code"
   echo "$out" | grep -E "^VIOLATION|^  clause=|MACHINERY" | head -6 | cut -c1-400
 done
-git -C /repo checkout -- .
+git -C /repo reset -q --hard HEAD
 git -C /repo status --short | grep -v '^??' | head -3
